@@ -208,10 +208,39 @@ def run(ctx):
                "critical sections is argued from lock scope")
     rule_revision_source(ctx)
     rule_publication(ctx)
+    rule_registry_atomic(ctx)
     return {}
 
 
 LOCK_FIELDS = {"session": ("lock",), "projects": ("read", "write")}
+
+
+def rule_registry_atomic(ctx):
+    """the registry of source inputs, shared by the owner and every snapshot, is only ever extended atomically"""
+    rule = "registry-atomic"
+    facts = ctx.facts
+    ctx.rule(rule, "CompilerSession::files (Arc<DashMap>, shared with every snapshot) gains an entry only through the entry API "
+                   "(`entry(k)` then `VacantEntry::insert`): no `DashMap::insert` / `remove` / `alter` / `retain` / `clear`, because a "
+                   "look-up followed by a separate insert lets two registrations of one file race; the loser's SourceInput is "
+                   "replaced while memoized queries still depend on it, and that root is analysed against text nobody edits")
+    ct = facts.calls_to()
+    n = 0
+    for k, cs in sorted(ct.items()):
+        if not k.startswith("dashmap::"):
+            continue
+        op = k.rsplit("::", 1)[-1]
+        for c in cs:
+            fr = c["from"].split("::{closure")[0]
+            if not ("zydeco_session" in fr or fr.startswith("cajun")) or "::tests::" in fr:
+                continue
+            n += 1
+            whole_map = k.startswith("dashmap::DashMap::<")
+            bad = whole_map and op in ("insert", "remove", "remove_if", "alter", "alter_all", "retain", "clear", "get_mut", "iter_mut")
+            ctx.check(not bad, rule, "%s:%s" % (M.short_fn(fr) if hasattr(M, "short_fn") else fr.split("::")[-1], op),
+                      "%s calls DashMap::%s on the shared registry of source inputs: registrations must go through `entry(..)` so that "
+                      "concurrent registrations of one file agree on ONE SourceInput" % (fr, op), c.get("loc"),
+                      detail={"operation": k.split("dashmap::")[-1][:60]})
+    ctx.floor(rule, "DashMap operations in the session / server", n, 5)
 
 
 def rule_revision_source(ctx):
